@@ -41,11 +41,26 @@ META = {
                     "(temporaries change closure environments and the order of __index calls)"],
 }
 
+# compound assignment whose key is an interpolated string with an embedded expression: the rule
+# treats that key as a literal and duplicates it (C06_compound_interp_key_refuted)
+INTERP_KEY = re.compile(r"\[`[^`]*\{[^`]*\}[^`]*`\]\s*(\+|-|\*|//|/|%|\^|\.\.)=")
+
+
+def classify(case, stage):
+    """key of known_findings.txt for a recorded defect class, or None"""
+    m = INTERP_KEY.search(case["source"])
+    if m:
+        rules = case["rules"]
+        if "remove_compound_assignment" in rules or (m.group(1) == "//" and "remove_floor_division" in rules):
+            return "remove_compound_assignment:interpolated-string-key-evaluated-twice"
+    return None
+
+
 def run(ctx):
     C.build_harness("dl-rules")
     proofs_ok = C.proof_gate(ctx, ["Lua/RunCheck.vo", "Lua/KnownClasses.vo"])
     n = 400 if ctx.tier == "quick" else 6000
-    rulecheck.run_profile(ctx, "c06", n, classify=None)
+    rulecheck.run_profile(ctx, "c06", n, classify=classify)
     # the tie of the local lemmas' models (Model/Lowering.v, Model/Visit.v) to the Rust rules
     lowering_gen.run_stream(ctx, ctx.prop)
     if not proofs_ok and not ctx.violations:
